@@ -552,3 +552,19 @@ Theorem C19_copy_code : forall (Json : entries -> list bool -> res str) (NewMapJ
   fn_Copy Json NewMapJson st mv = of_res (bind (Json mv []) NewMapJson).
 Proof. exact copy_code. Qed.
 Print Assumptions C19_copy_code.
+
+(* ---- tie to the CURRENT source of NewMapJson (json.go): go2v re-translates it on every run (Gen/Pure_gen.v); GenProofs/
+   PureG20.v proves the translation equal to the model [new_map_json] the theorems above are stated with, for ANY decoding
+   function (encoding/json's Decoder with / without UseNumber is the environment). *)
+From Mxj Require Import Gen.Setters_gen Gen.PureSupport Gen.Pure_gen GenProofs.PureG20.
+
+Theorem C19_new_map_json_code_is_model : forall (Decode : str -> bool -> res value) st b,
+  fn_NewMapJson Decode st b
+  = match new_map_json (fun x => Decode x (g_JsonUseNumber st)) b with
+    | Ok (VMap m) => Ret (Ok m)
+    | Ok _ => Crash
+    | Err e => Ret (Err e)
+    | Panic => Crash
+    end.
+Proof. exact new_map_json_code_is_model. Qed.
+Print Assumptions C19_new_map_json_code_is_model.
